@@ -1,10 +1,11 @@
 import EqsigVerif.Prelude.Wire
 import EqsigVerif.Handlers.TimeStep
+import EqsigVerif.Handlers.Surface
 /-! validation driver for lw_interp's handlers: same line protocol as `Driver.lean` -/
 open EqsigVerif EqsigVerif.Wire
 
 def vtable : List (String × Handler) :=
-  Handlers.TimeStep.handlers
+  Handlers.TimeStep.handlers ++ Handlers.Surface.handlers
 
 def dispatch (line : String) : String :=
   match line.splitOn "|" with
